@@ -8,7 +8,8 @@ PROPS_FILES = ["Nic/Props/C05.lean", "Nic/Props/TieProblems.lean"]
 # Go functions translated from /repo on every run (tools/gofn) and proved equal to the model in the Tie file above
 TIE_FUNCS = ['internal/k8s/configuration.go:compareConfigurationProblems', 'internal/k8s/configuration.go:detectChangesInProblems']
 HARNESS = "vh-k8s"
-RULE = ("histories over all kinds (as C01/C04). After every event the harness drives the controller's real reporting functions "
+RULE = ("GlobalConfiguration events (valid, partly invalid in five ways, deletion) through the real syncGlobalConfiguration with a recording event recorder: a TransportServer that is served before and not after must get a warning in that event. " +
+        "histories over all kinds (as C01/C04). After every event the harness drives the controller's real reporting functions "
         "(updateResourcesStatusAndEvents, Update*StatusAndEventsOnDelete, processProblems) with a recording EventRecorder on the returned "
         "changes and problems; the events are accumulated per object the way they accumulate in the cluster. Checked after every event "
         "against Spec.status of the current object set: a known, not-applied object has a rejection/warning naming its cause as latest "
@@ -184,6 +185,8 @@ def gen_validity_flip(rng):
 
 def gen(rng, tier):
     cases = []
+    for l in gen_gcreport(tier):
+        cases.append(dict(line=l, tags=["globalconfiguration-event"]))
     for _ in range(120 if tier == "quick" else 1500):
         cases.append(dict(line=arbgen.gen_replaced_contest(rng, ("ing", "vs", "ts", "pt")), tags=["replaced-object"]))
     for _ in range(120 if tier == "quick" else 1500):
@@ -212,9 +215,54 @@ def load_replay(obj):
     return [dict(line=obj["case"]["line"], tags=["replay"])]
 
 
+GC_BASE = "tcp1>5000>TCP&tcp2>5001>TCP&tcp3>5002>TCP"
+GC_EDITS = ["tcp2>5001>TCP&tcp3>5002>TCP",                               # valid: the listener is gone
+            "tcp0>5000>TCP&tcp1>5000>TCP&tcp2>5001>TCP&tcp3>5002>TCP",    # partly invalid: a new listener in front takes tcp1's ip:port, tcp1 is dropped
+            "tcp1>5000>BAD&tcp2>5001>TCP&tcp3>5002>TCP",                  # partly invalid: the used listener's protocol is not one
+            "tcp1>70000>TCP&tcp2>5001>TCP&tcp3>5002>TCP",                 # partly invalid: port out of range
+            "tcp1>5001>TCP&tcp2>5001>TCP&tcp3>5002>TCP",                  # tcp1 moves onto tcp2's port: the later entry (tcp2) is dropped
+            "tcp1>5000>UDP&tcp2>5001>TCP&tcp3>5002>TCP",                  # valid, but the protocol no longer matches the TransportServer's
+            "-"]                                                          # the GlobalConfiguration is deleted
+
+
+def gen_gcreport(tier):
+    """A GlobalConfiguration event through the real syncGlobalConfiguration (validation, arbitration, apply, reports): every
+    TransportServer that it takes the listener from must be told in that very event — also when the GlobalConfiguration itself is
+    reported with an error (seed C05-7)."""
+    out = []
+    for plus in (0, 1):
+        for e in GC_EDITS:
+            for ts in ("a@tcp1+b@tcp2", "a@tcp1+b@tcp1+c@tcp3", "a@tcp2+b@tcp3"):
+                out.append("gcreport plus=%d gc0=%s gc1=%s ts=%s" % (plus, GC_BASE, e, ts))
+    return out
+
+
 def run_cases(cases, bins, res, tier, broken):
-    arbprop.run_cases(sys.modules[__name__], cases, bins, res, tier, broken)
+    arbprop.run_cases(sys.modules[__name__], [c for c in cases if not c["line"].startswith("gcreport ")], bins, res, tier, broken)
+    gcs = [c for c in cases if c["line"].startswith("gcreport ")]
+    binpath = bins.get(HARNESS)
+    if not gcs or not binpath:
+        return
+    impl, _ = vlib.run_harness(binpath, ["gcreport %d %s" % (i, c["line"].split(" ", 1)[1]) for i, c in enumerate(gcs)], parallel=4)
+    for i, c in enumerate(gcs):
+        res["evaluations"] += 1
+        res["dist"]["globalconfiguration-event"] = res["dist"].get("globalconfiguration-event", 0) + 1
+        o = impl.get(str(i))
+        if not o or "#gc=" not in o:
+            res["corr_bad"].append((dict(line=c["line"]), "harness: %s" % (o or "no output")[:200]))
+            continue
+        res["validated"] += 1
+        for ent in o.split("#")[0].split(","):
+            name, before, after, evs = ent.split(":", 3)
+            if before == "1" and after == "0":
+                res["nontrivial"].add(vlib.sha(c["line"]))
+                if not any(e.startswith("Warning~") for e in evs.split("+") if e):
+                    res["spec_bad"].append((dict(line=c["line"], impl=o), "TransportServer d/%s was served before the GlobalConfiguration event and is not served after it, "
+                                            "but the event reported nothing about it (events about it: [%s]; about the GlobalConfiguration: %s)" % (name, evs, o.split("#gc=")[1])))
+                    break
 
 
 def shrink(case, issue, bins):
+    if case.get("line", "").startswith("gcreport "):
+        return case
     return arbprop.shrink(sys.modules[__name__], case, issue, bins)
